@@ -232,3 +232,38 @@ def search_history_family(full):
                 for mv in (("", "j", "k", "jj", "G") if full else ("", "j", "k")):
                     for op in (("dn", "dN", "yn", "cN", "n", "N", "2dn", "g~n", ">n") if full else ("dn", "dN", "yn", "cN", "n", ">n")):
                         yield dict(mode="vi", multiline=False, text=t, cursor=0, history=h), tokenize("<escape>" + start + mv + op) + ["<escape>", "x"]
+
+
+def completion_family(full):
+    """Sessions WITH a completer: a synchronous word completer and a slow,
+    gated asynchronous one (answers at the '<release>' token).  '<yield>' lets
+    the event loop run so that the completion menu really opens.  Menu keys,
+    numeric arguments (also zero / negative), Escape, accept / cancel."""
+    texts = ["al", ""] + (["b", "x al"] if full else [])
+    # Emacs
+    opens = [["<tab>", "<yield>"], ["<tab>", "<yield>", "<tab>"], ["<tab>", "<yield>", "<tab>", "<tab>"], ["<tab>"]]
+    args = [[], ["<escape>", "-"], ["<escape>", "0"], ["<escape>", "2"], ["<escape>", "-", "<escape>", "3"]]
+    moves = ["<down>", "<up>", "<c-n>", "<c-p>", "<tab>", "<s-tab>", "<right>", "<left>", "<escape>"]
+    ends = [["<yield>"], ["x"]] + ([["<c-m>"]] if full else [])
+    for t in texts:
+        for o in opens:
+            for a in args:
+                for m in moves:
+                    for e in ends:
+                        yield dict(mode="emacs", multiline=False, text=t, cursor=len(t), completer=True, history=["h"]), o + a + [m] + e
+    # Vi
+    vopens = [["<c-n>"], ["<c-n>", "<yield>"], ["<c-p>", "<yield>"], ["<c-n>", "<yield>", "<c-n>"], ["<tab>"]]
+    nexts = [["<escape>"], ["<c-e>"], ["<c-y>"], ["<down>"], ["<up>"], ["<left>"], ["x"], ["<escape>", "2", "j"]]
+    vends = [["<release>"], ["<release>", "x"], ["<yield>", "<escape>"]]
+    for comp in (True, "gated"):
+        for t in texts:
+            for o in vopens:
+                for nx in nexts:
+                    for e in vends:
+                        yield dict(mode="vi", multiline=False, text=t, cursor=len(t), completer=comp, history=["h"]), o + nx + e
+    if full:
+        for comp in (True, "gated"):
+            for t in texts:
+                for o in opens:
+                    for m in moves:
+                        yield dict(mode="emacs", multiline=True, text=t, cursor=len(t), completer=comp, complete_while_typing=True), ["a"] + o + [m, "<release>", "x"]
